@@ -146,3 +146,14 @@ package ext
 //@   loop 0:
 //@     invariant 0 <= write && write <= read && read <= length && length == len(ov) && sameArray(nv, ov) && off(nv) == off(ov) && len(nv) == len(ov)
 //@     invariant capOnly(mkslice(arr(ov), off(ov), len(ov)))
+
+// HeaderScanner.Next: the scanner only ever moves forward inside one buffer. The new window is a suffix
+// of the old one in the same place (same array, same end), and memory changes only in the prefix that
+// was consumed by this step (key case normalisation, value compaction).
+//@ func HeaderScanner.Next(s) r
+//@   props C02
+//@   nosafety
+//@   modifies s._all, mem
+//@   top-ensures sameArray(s.B, old(s.B)) && off(s.B) >= off(old(s.B)) && off(s.B) + len(s.B) == off(old(s.B)) + len(old(s.B))
+//@   top-ensures changedOnly(arr(old(s.B)), off(old(s.B)), off(s.B))
+//@   top-ensures s.HLen - old(s.HLen) == off(s.B) - off(old(s.B))
